@@ -82,9 +82,16 @@ class C02(common.Spec):
 
         def build():
             dests = [Dest(f"d{i}") for i in range(4)]
-            mk = lambda cfgs: [edzed.Event(dests[e['dest']], 'ev',
-                                           efilter=[_c16._mk_filter(f, None) for f in e['filters']]
-                                           if e['filters'] else None) for e in cfgs]
+            def mk(cfgs):
+                objs = []
+                for e in cfgs:
+                    if e.get('same_as') is not None and e['same_as'] < len(objs):
+                        objs.append(objs[e['same_as']])      # the very same Event object listed again
+                    else:
+                        objs.append(edzed.Event(dests[e['dest']], 'ev',
+                                                efilter=[_c16._mk_filter(f, None) for f in e['filters']]
+                                                if e['filters'] else None))
+                return objs
             on_out, on_every = mk(case['on_output']), mk(case['on_every'])
             kw = dict(on_output=as_arg(on_out, case['form']))
             kind = case['sender']
@@ -218,8 +225,14 @@ def gen_cases(run):
             grp = rng.choice([POOL[0:3], POOL[3:6]])
             values = [rng.choice(grp + [rng.choice(POOL)]) for _ in values]
         mk = lambda: dict(filters=rand_filters(rng), dest=rng.randrange(3))
-        on_output = [mk() for _ in range(rng.choice([0, 1, 2, 3]))] + [dict(filters=[], dest=3)]
+        on_output = [mk() for _ in range(rng.choice([0, 1, 2, 3]))]
         on_every = [mk() for _ in range(rng.choice([0, 0, 1, 2, 3]))]
+        for lst in (on_output, on_every):
+            if lst and rng.random() < 0.25:
+                # an event configured twice for the same trigger (the same Event object): sent twice
+                i = rng.randrange(len(lst))
+                lst.append(dict(lst[i], same_as=i))
+        on_output.append(dict(filters=[], dest=3))
         if any(v[0] == 'm' for v in values):
             # a data.get(k) filter would return the dict-valued item, which then REPLACES the event data
             # (C16 covers that); the filters behind it would run on data without the standard items
